@@ -11,12 +11,24 @@ def jobs(tier):
              require_tags={'end': 1, 'accept': 1}),
         dict(name='afs-fixed-table', harness='c08_afs.c', entry='main_c08', defines=dict(NN=4, NE=4, NS=1, NM=2, FIXED_TABLE=1), timeout=900,
              require_tags={'end': 1, 'accept': 1, 'counted-allele': 1}),
-        dict(name='afs-n3e2', harness='c08_afs.c', entry='main_c08', defines=dict(NN=3, NE=2, NS=0, NM=0, TP_HI=0, SP_LO=1, SP_HI=2), timeout=900,
-             require_tags={'end': 1, 'accept': 1}),
+        dict(name='divmat-fixed-table', harness='c08_divmat.c', entry='main_c08', defines=dict(NN=4, NE=4, NS=1, NM=2, FIXED_TABLE=1), timeout=900,
+             require_tags={'end': 1, 'accept': 1, 'mrca': 1, 'disconnected': 1, 'differ': 1}),
+        dict(name='paircoal-fixed-table', harness='c08_paircoal.c', entry='main_c08', defines=dict(NN=4, NE=4, NS=0, FIXED_TABLE=1), timeout=600,
+             require_tags={'end': 1, 'accept': 1, 'coalesces': 1, 'at-a-sample': 1}),
+        dict(name='paircoal-n3e2', harness='c08_paircoal.c', entry='main_c08', defines=dict(NN=3, NE=2, NS=0, TP_HI=0, SP_LO=1, SP_HI=2), timeout=900,
+             require_tags={'end': 1, 'accept': 1, 'coalesces': 1, 'at-a-sample': 1}),
     ]
     if tier == 'quick':
         return q
     return q + [
+        dict(name='paircoal-n4e3', harness='c08_paircoal.c', entry='main_c08', defines=dict(NN=4, NE=3, NS=0, TP_HI=0, SP_LO=0, SP_HI=2), timeout=3000,
+             allow_incomplete=True, require_tags={'end': 1, 'accept': 1, 'coalesces': 1}),
+        dict(name='afs-n3e2', harness='c08_afs.c', entry='main_c08', defines=dict(NN=3, NE=2, NS=0, NM=0, TP_HI=0, SP_LO=1, SP_HI=2), timeout=1500,
+             require_tags={'end': 1, 'accept': 1}),
+        dict(name='divmat-n3e2', harness='c08_divmat.c', entry='main_c08', defines=dict(NN=3, NE=2, NS=0, NM=0, TP_HI=0, SP_LO=1, SP_HI=2), timeout=1500,
+             require_tags={'end': 1, 'accept': 1, 'mrca': 1, 'disconnected': 1}),
+        dict(name='divmat-n4e3', harness='c08_divmat.c', entry='main_c08', defines=dict(NN=4, NE=3, NS=0, NM=0, TP_HI=0, SP_LO=1, SP_HI=2), timeout=3000,
+             allow_incomplete=True, require_tags={'end': 1, 'accept': 1, 'mrca': 1}),
         dict(name='afs-n3e2-sites', harness='c08_afs.c', entry='main_c08', defines=dict(NN=3, NE=2, NS=1, NM=1, TP_HI=0, SP_LO=1, SP_HI=2), timeout=3000,
              allow_incomplete=True, require_tags={'end': 1, 'accept': 1, 'counted-allele': 1}),
         dict(name='afs-n4e3', harness='c08_afs.c', entry='main_c08', defines=dict(NN=4, NE=3, NS=0, NM=0, TP_HI=0, SP_LO=1, SP_HI=2), timeout=3000,
@@ -34,21 +46,22 @@ BOUNDS = {
              'with b a solver variable; every valid 3-node 2-edge tree sequence class (branch and node mode, 2 sample profiles), and the fixed 5-tree table '
              'with one site at a symbolic position and 2 mutations (alleles "A" or "C" over ancestral "AT"; all three modes).  tsk_treeseq_allele_frequency_spectrum: '
              'branch and site mode, polarised and folded, sample sets {all}, {all but the first}, {first}+{rest} (joint spectrum), windows [0,b,L]; '
-             'the same fixed table with its site and 2 mutations, and every 3-node 2-edge class (branch mode, 2 sample profiles)',
-    'thorough': 'plus AFS site mode on all 3-node classes, AFS branch mode on 4-node 3-edge classes, general_stat site mode on all 3-node classes and branch/node mode on 4-node 3-edge classes (time-boxed)',
+             'the same fixed table with its site and 2 mutations.  tsk_treeseq_divergence_matrix between single samples, branch and site mode, windows [0,L] and [0,b,L], same fixed table.  tsk_treeseq_pair_coalescence_counts per node, pairs within {all} / {all but the first} or between {first} and {rest}, '
+             'no normalisation, windows [0,L] and [0,b,L] (all coordinates even integers), fixed table and every 3-node 2-edge class with 2 sample profiles',
+    'thorough': 'plus AFS and divergence matrix (branch mode) on every 3-node 2-edge class with 2 sample profiles (incl. an internal sample), divergence matrix and pair coalescence counts on 4-node 3-edge classes, AFS site mode on all 3-node classes, AFS branch mode on 4-node 3-edge classes, general_stat site mode on all 3-node classes and branch/node mode on 4-node 3-edge classes (time-boxed)',
 }
 OUTSIDE = ['every statistic that divides or uses non-integer weights other than the folded AFS half-weights: span_normalise=True, diversity, Fst, Tajimas_D, f-statistics, '
-           'LD, relatedness, divergence matrix, coalescence counts ... (floating point is their subject)',
+           'LD, relatedness, divergence matrix between sets of more than one sample, pair coalescence with time windows / quantiles / rates / normalisation ... (floating point is their subject)',
            'worker threads / num_threads (no concurrency in the engine)', 'Python argument shaping (numpy)',
            'windows given as "trees"/"sites"', 'summary functions other than the identity']
-ASSUMPTIONS = ['all intermediates are integer-valued doubles, encoded exactly as integers (a path that leaves this regime would end as '
+ASSUMPTIONS = ['pair coalescence: a pair one of whose members is an ancestor of the other is not counted (maintainers\' reading, test_coalrate.py test_internal_samples); halves of spans are kept exact by proving the span even on the path', 'all intermediates are integer-valued doubles, encoded exactly as integers (a path that leaves this regime would end as '
                'inconclusive; none does); the folded site AFS adds concrete halves',
                'folded AFS is specified by its defining properties (mirror-image cell pairs hold the unfolded mass, upper half empty, a pair never split), not by the tie-break order', 'node mode: every node of the tree sequence contributes in every tree (docs/stats.md)']
 MANIFEST = dict(
     text='NARROW claim: in the regime where every intermediate of the general statistic framework is an integer-valued double, '
          'the real tsk_treeseq_general_stat (branch, node and site mode, polarised or not) equals the documented definition '
          'evaluated naively per window and is additive over a symbolic window refinement, for all values within the bounds; '
-         'the real tsk_treeseq_allele_frequency_spectrum (branch/site, polarised/folded, one set or the joint spectrum of two) equals the docs/stats.md definition per window.  '
+         'the real tsk_treeseq_allele_frequency_spectrum (branch/site, polarised/folded, one set or the joint spectrum of two) equals the docs/stats.md definition per window; the real tsk_treeseq_divergence_matrix between single samples (branch: path lengths to the MRCA or to the own roots; site: differing alleles) equals its definition, is symmetric with zero diagonal and additive over the refinement; the real tsk_treeseq_pair_coalescence_counts equals span x number of sample pairs with that MRCA per node and window.  '
          'Normalised statistics, the named statistics built on non-trivial summary functions and thread schedules are NOT covered.',
     note='Only the incremental state propagation, window accounting and allele weighting of the general framework and of the AFS; see outside_claim.',
     technique='symbolic execution of LLVM IR + SMT (z3) with exact integer-backed doubles, bounded, differential against the definition')
